@@ -9,4 +9,6 @@ python3 tools/extract.py
 (cd lean && lake build TT tt_driver)
 [ -f harness/Cargo.lock ] || cp /repo/Cargo.lock harness/Cargo.lock
 (cd harness && cargo build --offline)
+# the real endpoint binary for the process-level suites (C05, C13, C19), guard off
+(cd /repo && cargo build --offline -p trusttunnel_endpoint --target-dir "$OLDPWD/harness/target/endpoint")
 echo "setup: ok"
